@@ -1,7 +1,2372 @@
-//! implementation-side oracles (model-free): see DESIGN.md §3.4
-use crate::gens::Group;
+//! Implementation-side oracles (model-free) for C04, C05, C15, C19, C20 and the dedicated
+//! generators that go with them: see DESIGN.md §3.4.
+//!
+//! Everything here is independent reference code: a partial evaluator of the selection language
+//! written from the function documentation (`add_description_line` / `add_example` texts), an
+//! RFC 4180 reader, exact decimal arithmetic on big integers, and a process-level check of the
+//! real binary.  Nothing of jawk's parser or evaluator is used; values are read with the harness's
+//! own strict RFC 8259 reader.
+use crate::case::Case;
+use crate::gen_table::FUNCTION_TABLE;
+use crate::gens::{stdin_src, Group};
+use crate::rng::Rng;
 use crate::runner::Obs;
+use crate::value::{self, Strict, V};
+use bigdecimal::num_bigint::BigInt;
+use std::cmp::Ordering;
 
-pub fn oracle(_prop: &str, _g: &Group, _obs: &[Obs]) -> Option<String> {
+pub fn oracle(prop: &str, g: &Group, obs: &[Obs]) -> Option<String> {
+    match prop {
+        "C04" => c04(g, obs),
+        "C05" => c05(g, obs),
+        "C15" => c15(g, obs),
+        "C19" => c19(g, obs),
+        "C20" => c20(g, obs),
+        _ => None,
+    }
+}
+
+fn show(v: &V) -> String {
+    let t = value::render(v);
+    if t.chars().count() > 160 {
+        format!("{}…", t.chars().take(160).collect::<String>())
+    } else {
+        t
+    }
+}
+
+// =================================================================================== exact decimals
+
+/// mantissa * 10^exp, normalised (no trailing zero in the mantissa; zero is (0, 0))
+#[derive(Clone, Debug, PartialEq)]
+pub struct Dec {
+    m: BigInt,
+    e: i64,
+}
+
+fn pow10(k: u64) -> BigInt {
+    BigInt::from(10u32).pow(k as u32)
+}
+
+impl Dec {
+    fn norm(mut self) -> Dec {
+        let zero = BigInt::from(0u32);
+        if self.m == zero {
+            self.e = 0;
+            return self;
+        }
+        let ten = BigInt::from(10u32);
+        while (&self.m % &ten) == zero {
+            self.m = &self.m / &ten;
+            self.e += 1;
+        }
+        self
+    }
+
+    /// `[+-]? digits [. digits*] [(e|E) [+-]? digits]` - the decimal strings of the property
+    pub fn parse(s: &str) -> Option<Dec> {
+        let b = s.as_bytes();
+        let mut i = 0;
+        let mut neg = false;
+        if i < b.len() && (b[i] == b'+' || b[i] == b'-') {
+            neg = b[i] == b'-';
+            i += 1;
+        }
+        let mut digits = String::new();
+        let st = i;
+        while i < b.len() && b[i].is_ascii_digit() {
+            digits.push(b[i] as char);
+            i += 1;
+        }
+        if i == st {
+            return None;
+        }
+        let mut scale: i64 = 0;
+        if i < b.len() && b[i] == b'.' {
+            i += 1;
+            while i < b.len() && b[i].is_ascii_digit() {
+                digits.push(b[i] as char);
+                scale += 1;
+                i += 1;
+            }
+        }
+        let mut exp: i64 = 0;
+        if i < b.len() && (b[i] == b'e' || b[i] == b'E') {
+            i += 1;
+            let mut eneg = false;
+            if i < b.len() && (b[i] == b'+' || b[i] == b'-') {
+                eneg = b[i] == b'-';
+                i += 1;
+            }
+            let st = i;
+            while i < b.len() && b[i].is_ascii_digit() {
+                i += 1;
+            }
+            if i == st || i - st > 6 {
+                return None;
+            }
+            exp = s[st..i].parse().ok()?;
+            if eneg {
+                exp = -exp;
+            }
+        }
+        if i != b.len() {
+            return None;
+        }
+        let mut m: BigInt = digits.parse().ok()?;
+        if neg {
+            m = -m;
+        }
+        Some(Dec { m, e: exp - scale }.norm())
+    }
+
+    /// both mantissas at the smaller exponent
+    fn align(a: &Dec, b: &Dec) -> Option<(BigInt, BigInt, i64)> {
+        let e = a.e.min(b.e);
+        if a.e - e > 3000 || b.e - e > 3000 {
+            return None;
+        }
+        Some((&a.m * pow10((a.e - e) as u64), &b.m * pow10((b.e - e) as u64), e))
+    }
+    fn add(a: &Dec, b: &Dec) -> Option<Dec> {
+        let (x, y, e) = Dec::align(a, b)?;
+        Some(Dec { m: x + y, e }.norm())
+    }
+    fn neg(&self) -> Dec {
+        Dec { m: -self.m.clone(), e: self.e }
+    }
+    fn mul(a: &Dec, b: &Dec) -> Dec {
+        Dec { m: &a.m * &b.m, e: a.e + b.e }.norm()
+    }
+    fn abs(&self) -> Dec {
+        let zero = BigInt::from(0u32);
+        if self.m < zero { self.neg() } else { self.clone() }
+    }
+    fn cmp(a: &Dec, b: &Dec) -> Option<Ordering> {
+        let (x, y, _) = Dec::align(a, b)?;
+        Some(x.cmp(&y))
+    }
+    fn show(&self) -> String {
+        format!("{}E{}", self.m, self.e)
+    }
+}
+
+// =================================================================================== expression AST
+
+#[derive(Clone, Debug, PartialEq)]
+pub enum Step {
+    Key(String),
+    Idx(usize),
+}
+
+#[derive(Clone, Debug, PartialEq)]
+pub enum Ast {
+    Lit(V),
+    Ext { ups: usize, path: Vec<Step> },
+    Call { name: &'static str, args: Vec<Ast> },
+}
+
+struct P<'a> {
+    b: &'a [u8],
+    i: usize,
+    depth: usize,
+}
+
+fn lookup(name: &str) -> Option<(&'static str, usize, Option<usize>)> {
+    FUNCTION_TABLE.iter().find(|(n, aliases, _, _)| *n == name || aliases.contains(&name)).map(|(n, _, lo, hi)| (*n, *lo, *hi))
+}
+
+fn is_ws(c: u8) -> bool {
+    matches!(c, b' ' | b'\n' | b'\t' | b'\r')
+}
+
+/// number spellings whose reading is beyond doubt: plain integers (no `-0`, no leading zero) and
+/// short decimals with a non-zero fraction and no exponent
+fn num_ok(n: &[u8]) -> bool {
+    let Ok(s) = std::str::from_utf8(n) else { return false };
+    let (neg, body) = match s.strip_prefix('-') {
+        Some(r) => (true, r),
+        None => (false, s),
+    };
+    if body.is_empty() {
+        return false;
+    }
+    let plain = |t: &str| !t.is_empty() && t.bytes().all(|c| c.is_ascii_digit()) && (t == "0" || !t.starts_with('0'));
+    if body.bytes().all(|c| c.is_ascii_digit()) {
+        return plain(body) && !(neg && body == "0");
+    }
+    if let Some((ip, fp)) = body.split_once('.') {
+        return plain(ip) && !fp.is_empty() && fp.bytes().all(|c| c.is_ascii_digit()) && fp.bytes().any(|c| c != b'0') && ip.len() + fp.len() <= 15;
+    }
+    false
+}
+
+fn numbers_plain(t: &[u8]) -> bool {
+    let mut i = 0;
+    while i < t.len() {
+        match t[i] {
+            b'"' => {
+                i += 1;
+                while i < t.len() && t[i] != b'"' {
+                    if t[i] == b'\\' {
+                        i += 1;
+                    }
+                    i += 1;
+                }
+                i += 1;
+            }
+            b'-' | b'0'..=b'9' => {
+                let st = i;
+                while i < t.len() && matches!(t[i], b'-' | b'+' | b'.' | b'e' | b'E' | b'0'..=b'9') {
+                    i += 1;
+                }
+                if !num_ok(&t[st..i]) {
+                    return false;
+                }
+            }
+            _ => i += 1,
+        }
+    }
+    true
+}
+
+impl<'a> P<'a> {
+    fn peek(&self) -> Option<u8> {
+        self.b.get(self.i).copied()
+    }
+    fn ws(&mut self) {
+        while let Some(c) = self.peek() {
+            if is_ws(c) { self.i += 1 } else { break }
+        }
+    }
+    fn expr(&mut self) -> Option<Ast> {
+        self.depth += 1;
+        if self.depth > 200 {
+            return None;
+        }
+        self.ws();
+        let r = match self.peek()? {
+            b'.' | b'#' | b'^' => self.extractor(),
+            b'(' => self.call(),
+            b':' | b'@' | b'&' | b'/' => None, // variables, macros, input context, earlier selections: not covered
+            _ => self.literal(),
+        };
+        self.depth -= 1;
+        r
+    }
+    fn literal(&mut self) -> Option<Ast> {
+        let rest = &self.b[self.i..];
+        let mut s = Strict::new(rest);
+        let v = s.value().ok()?;
+        let used = s.i;
+        if !numbers_plain(&rest[..used]) {
+            return None;
+        }
+        self.i += used;
+        Some(Ast::Lit(v))
+    }
+    fn extractor(&mut self) -> Option<Ast> {
+        let mut ups = 0;
+        while self.peek() == Some(b'^') {
+            ups += 1;
+            self.i += 1;
+        }
+        let mut path = vec![];
+        loop {
+            match self.peek() {
+                Some(b'.') => {
+                    self.i += 1;
+                    let st = self.i;
+                    while let Some(c) = self.peek() {
+                        let delim = c.is_ascii_whitespace() || c.is_ascii_control() || b".,=()\"][{}#".contains(&c);
+                        if delim { break }
+                        self.i += 1;
+                    }
+                    if st == self.i {
+                        return if path.is_empty() { Some(Ast::Ext { ups, path }) } else { None };
+                    }
+                    path.push(Step::Key(String::from_utf8(self.b[st..self.i].to_vec()).ok()?));
+                }
+                Some(b'#') => {
+                    self.i += 1;
+                    let st = self.i;
+                    while let Some(b'0'..=b'9') = self.peek() {
+                        self.i += 1;
+                    }
+                    if st == self.i {
+                        return if path.is_empty() { Some(Ast::Ext { ups, path }) } else { None };
+                    }
+                    let n: usize = std::str::from_utf8(&self.b[st..self.i]).ok()?.parse().ok()?;
+                    path.push(Step::Idx(n));
+                }
+                _ => return Some(Ast::Ext { ups, path }),
+            }
+        }
+    }
+    fn call(&mut self) -> Option<Ast> {
+        self.i += 1;
+        self.ws();
+        let st = self.i;
+        while let Some(c) = self.peek() {
+            if c.is_ascii_whitespace() || c.is_ascii_control() || c == b',' || c == b'(' || c == b')' { break }
+            self.i += 1;
+        }
+        let mut name = std::str::from_utf8(&self.b[st..self.i]).ok()?;
+        let mut args = vec![];
+        if let Some(rest) = name.strip_prefix('.') {
+            args.push(Ast::Ext { ups: 0, path: vec![] });
+            name = rest;
+        }
+        let (canon, lo, hi) = lookup(name)?;
+        loop {
+            self.ws();
+            match self.peek()? {
+                b',' => self.i += 1,
+                b')' => {
+                    self.i += 1;
+                    break;
+                }
+                _ => args.push(self.expr()?),
+            }
+        }
+        if args.len() < lo || hi.map(|h| args.len() > h).unwrap_or(false) {
+            return None;
+        }
+        Some(Ast::Call { name: canon, args })
+    }
+}
+
+/// `<expression>[=name]` as given to --select; None = outside the covered sub-language
+pub fn parse_selection(text: &str) -> Option<(Ast, String)> {
+    let mut p = P { b: text.as_bytes(), i: 0, depth: 0 };
+    let a = p.expr()?;
+    p.ws();
+    match p.peek() {
+        None => Some((a, text.to_string())),
+        Some(b'=') => {
+            p.i += 1;
+            p.ws();
+            Some((a, String::from_utf8(p.b[p.i..].to_vec()).ok()?))
+        }
+        _ => None,
+    }
+}
+
+/// an expression alone (used by the generators to size their boundary arguments)
+pub fn parse_expr(text: &str) -> Option<Ast> {
+    let mut p = P { b: text.as_bytes(), i: 0, depth: 0 };
+    let a = p.expr()?;
+    p.ws();
+    if p.i == p.b.len() { Some(a) } else { None }
+}
+
+// =================================================================================== reference evaluator
+
+/// what the documentation prescribes for an expression on an input
+#[derive(Clone, Debug)]
+pub enum Rv {
+    Val(V),
+    /// a number-as-string result: the value is prescribed, its spelling is not
+    Dec(Dec),
+    Nothing,
+    /// the documentation (or this partial evaluator) does not settle the result
+    Unknown,
+}
+
+enum Cnt {
+    N(usize),
+    Nothing,
+    Unk,
+}
+
+/// "a positive integer" argument (N of take, an index, a start, a length)
+fn count(a: &Option<V>) -> Cnt {
+    match a {
+        Some(V::Int(i)) if *i >= 0 && *i < (1i128 << 64) => Cnt::N(usize::try_from(*i as u64).unwrap_or(usize::MAX)),
+        Some(V::Int(_)) => Cnt::Nothing,
+        Some(V::Float(f)) if f.fract() != 0.0 => Cnt::Nothing,
+        Some(V::Float(_)) => Cnt::Unk,
+        _ => Cnt::Nothing,
+    }
+}
+
+fn rank(v: &V) -> u8 {
+    match v {
+        V::Null => 0,
+        V::Bool(false) => 1,
+        V::Bool(true) => 2,
+        V::Str(_) => 3,
+        V::Int(_) | V::Float(_) => 4,
+        V::Obj(_) => 5,
+        V::Arr(_) => 6,
+    }
+}
+
+const P53: i128 = 1 << 53;
+
+fn num_cmp(a: &V, b: &V) -> Option<Ordering> {
+    match (a, b) {
+        (V::Int(x), V::Int(y)) => {
+            if x.abs() <= P53 && y.abs() <= P53 {
+                return Some(x.cmp(y));
+            }
+            // the documentation does not say how finely huge numbers are compared
+            let (fx, fy) = (*x as f64, *y as f64);
+            if fx != fy { fx.partial_cmp(&fy) } else if x == y { Some(Ordering::Equal) } else { None }
+        }
+        (V::Float(x), V::Float(y)) => x.partial_cmp(y),
+        (V::Int(x), V::Float(y)) => {
+            let fx = *x as f64;
+            if x.abs() <= P53 || fx != *y { fx.partial_cmp(y) } else { None }
+        }
+        (V::Float(_), V::Int(_)) => num_cmp(b, a).map(|o| o.reverse()),
+        _ => None,
+    }
+}
+
+fn eq_known(a: &V, b: &V) -> Option<bool> {
+    if rank(a) != rank(b) {
+        // false and true have different ranks
+        return Some(false);
+    }
+    match (a, b) {
+        (V::Null, V::Null) => Some(true),
+        (V::Bool(x), V::Bool(y)) => Some(x == y),
+        (V::Str(x), V::Str(y)) => Some(x == y),
+        (V::Int(x), V::Int(y)) => Some(x == y),
+        (V::Int(_) | V::Float(_), V::Int(_) | V::Float(_)) => num_cmp(a, b).map(|o| o == Ordering::Equal),
+        (V::Arr(x), V::Arr(y)) => {
+            if x.len() != y.len() {
+                return Some(false);
+            }
+            let mut unk = false;
+            for (p, q) in x.iter().zip(y) {
+                match eq_known(p, q) {
+                    Some(false) => return Some(false),
+                    None => unk = true,
+                    _ => {}
+                }
+            }
+            if unk { None } else { Some(true) }
+        }
+        (V::Obj(x), V::Obj(y)) => {
+            if x.len() != y.len() {
+                return Some(false);
+            }
+            let mut unk = false;
+            for (k, p) in x {
+                match y.iter().find(|(k2, _)| k2 == k) {
+                    None => return Some(false),
+                    Some((_, q)) => match eq_known(p, q) {
+                        Some(false) => return Some(false),
+                        None => unk = true,
+                        _ => {}
+                    },
+                }
+            }
+            let same_order = x.iter().zip(y).all(|((k, _), (k2, _))| k == k2);
+            // whether member order matters for equality is not documented
+            if unk || !same_order { None } else { Some(true) }
+        }
+        _ => Some(false),
+    }
+}
+
+/// null < false < true < strings < numbers < objects < arrays; inside a type only what is beyond doubt
+fn ord_known(a: &V, b: &V) -> Option<Ordering> {
+    let (ra, rb) = (rank(a), rank(b));
+    if ra != rb {
+        return Some(ra.cmp(&rb));
+    }
+    match (a, b) {
+        (V::Str(x), V::Str(y)) => Some(x.chars().cmp(y.chars())),
+        (V::Int(_) | V::Float(_), _) => num_cmp(a, b),
+        (V::Arr(_), _) | (V::Obj(_), _) => {
+            if eq_known(a, b) == Some(true) { Some(Ordering::Equal) } else { None }
+        }
+        _ => Some(Ordering::Equal),
+    }
+}
+
+pub struct Eval {
+    fuel: usize,
+}
+
+fn nas_operand(r: &Rv) -> Result<Option<Dec>, ()> {
+    match r {
+        Rv::Dec(d) => Ok(Some(d.clone())),
+        Rv::Val(V::Str(s)) => match Dec::parse(s) {
+            Some(d) => Ok(Some(d)),
+            None => {
+                if s.bytes().any(|c| c.is_ascii_digit()) { Err(()) } else { Ok(None) }
+            }
+        },
+        Rv::Val(_) | Rv::Nothing => Ok(None),
+        Rv::Unknown => Err(()),
+    }
+}
+
+impl Eval {
+    pub fn new() -> Eval {
+        Eval { fuel: 200_000 }
+    }
+
+    pub fn eval(&mut self, a: &Ast, input: &V, parents: &[V]) -> Rv {
+        if self.fuel == 0 {
+            return Rv::Unknown;
+        }
+        self.fuel -= 1;
+        match a {
+            Ast::Lit(v) => Rv::Val(v.clone()),
+            Ast::Ext { ups, path } => {
+                let mut cur: &V = if *ups == 0 {
+                    input
+                } else if *ups <= parents.len() {
+                    &parents[*ups - 1]
+                } else {
+                    // `^` outside a functional function is not documented
+                    return Rv::Unknown;
+                };
+                for s in path {
+                    let next = match (s, cur) {
+                        (Step::Key(k), V::Obj(o)) => o.iter().find(|(x, _)| x == k).map(|(_, v)| v),
+                        (Step::Idx(i), V::Arr(l)) => l.get(*i),
+                        _ => None,
+                    };
+                    match next {
+                        Some(v) => cur = v,
+                        None => return Rv::Nothing,
+                    }
+                }
+                Rv::Val(cur.clone())
+            }
+            Ast::Call { name, args } => self.call(name, args, input, parents),
+        }
+    }
+
+    fn call(&mut self, name: &str, args: &[Ast], input: &V, parents: &[V]) -> Rv {
+        // ---- functions that do not look at all their arguments
+        match name {
+            "?" => {
+                return match self.eval(&args[0], input, parents) {
+                    Rv::Val(V::Bool(true)) => self.eval(&args[1], input, parents),
+                    Rv::Val(V::Bool(false)) => self.eval(&args[2], input, parents),
+                    Rv::Unknown => Rv::Unknown,
+                    _ => Rv::Nothing,
+                };
+            }
+            "default" => {
+                for a in args {
+                    match self.eval(a, input, parents) {
+                        Rv::Nothing => {}
+                        other => return other,
+                    }
+                }
+                return Rv::Nothing;
+            }
+            "map" | "filter" => {
+                let list = match self.eval(&args[0], input, parents) {
+                    Rv::Val(V::Arr(l)) => l,
+                    Rv::Unknown | Rv::Dec(_) => return Rv::Unknown,
+                    _ => return Rv::Nothing,
+                };
+                let mut inner: Vec<V> = Vec::with_capacity(parents.len() + 1);
+                inner.push(input.clone());
+                inner.extend(parents.iter().cloned());
+                let mut out = vec![];
+                for el in list {
+                    match (name, self.eval(&args[1], &el, &inner)) {
+                        (_, Rv::Unknown) | (_, Rv::Dec(_)) => return Rv::Unknown,
+                        ("map", Rv::Val(v)) => out.push(v),
+                        ("filter", Rv::Val(V::Bool(true))) => out.push(el),
+                        _ => {}
+                    }
+                }
+                return Rv::Val(V::Arr(out));
+            }
+            _ => {}
+        }
+        let rs: Vec<Rv> = args.iter().map(|a| self.eval(a, input, parents)).collect();
+        if rs.iter().any(|r| matches!(r, Rv::Unknown)) {
+            return Rv::Unknown;
+        }
+        // ---- number-as-string functions
+        if name.starts_with('"') {
+            let mut ds = vec![];
+            let mut nothing = false;
+            for r in &rs {
+                match nas_operand(r) {
+                    Err(()) => return Rv::Unknown,
+                    Ok(None) => nothing = true,
+                    Ok(Some(d)) => ds.push(d),
+                }
+            }
+            if !matches!(name, "\"+\"" | "\"-\"" | "\"*\"" | "\"abs\"" | "\"||\"" | "\"=\"" | "\"!=\"" | "\"<\"" | "\"<=\"" | "\">\"" | "\">=\"") {
+                return Rv::Unknown;
+            }
+            if nothing {
+                return Rv::Nothing;
+            }
+            let cmp = |ds: &[Dec], f: fn(Ordering) -> bool| match Dec::cmp(&ds[0], &ds[1]) {
+                Some(o) => Rv::Val(V::Bool(f(o))),
+                None => Rv::Unknown,
+            };
+            return match name {
+                "\"+\"" => {
+                    let mut acc = ds[0].clone();
+                    for d in &ds[1..] {
+                        match Dec::add(&acc, d) {
+                            Some(s) => acc = s,
+                            None => return Rv::Unknown,
+                        }
+                    }
+                    Rv::Dec(acc)
+                }
+                "\"*\"" => {
+                    let mut acc = ds[0].clone();
+                    for d in &ds[1..] {
+                        acc = Dec::mul(&acc, d);
+                    }
+                    Rv::Dec(acc)
+                }
+                "\"-\"" => {
+                    if ds.len() == 1 {
+                        Rv::Dec(ds[0].neg())
+                    } else {
+                        match Dec::add(&ds[0], &ds[1].neg()) {
+                            Some(s) => Rv::Dec(s),
+                            None => Rv::Unknown,
+                        }
+                    }
+                }
+                "\"abs\"" => Rv::Dec(ds[0].abs()),
+                "\"||\"" => Rv::Dec(ds[0].clone()),
+                "\"=\"" => cmp(&ds, |o| o == Ordering::Equal),
+                "\"!=\"" => cmp(&ds, |o| o != Ordering::Equal),
+                "\"<\"" => cmp(&ds, |o| o == Ordering::Less),
+                "\"<=\"" => cmp(&ds, |o| o != Ordering::Greater),
+                "\">\"" => cmp(&ds, |o| o == Ordering::Greater),
+                _ => cmp(&ds, |o| o != Ordering::Less),
+            };
+        }
+        if rs.iter().any(|r| matches!(r, Rv::Dec(_))) {
+            // the spelling of a number-as-string result is not prescribed
+            return Rv::Unknown;
+        }
+        let v: Vec<Option<V>> = rs.into_iter().map(|r| if let Rv::Val(v) = r { Some(v) } else { None }).collect();
+        if matches!(name, "keys" | "values" | "entries" | "take" | "take_last" | "sub") {
+            if let Some(Some(V::Obj(o))) = v.first() {
+                if pairish(o) {
+                    return Rv::Unknown;
+                }
+            }
+        }
+        let some = |x: V| Rv::Val(x);
+        let boolean = |b: bool| Rv::Val(V::Bool(b));
+        let arg = |i: usize| v.get(i).cloned().flatten();
+        match name {
+            "get" => match (arg(0), arg(1)) {
+                (Some(V::Arr(l)), i) => match count(&i) {
+                    Cnt::N(n) => l.get(n).cloned().map(Rv::Val).unwrap_or(Rv::Nothing),
+                    Cnt::Nothing => Rv::Nothing,
+                    Cnt::Unk => Rv::Unknown,
+                },
+                (Some(V::Obj(o)), Some(V::Str(k))) => o.iter().find(|(x, _)| *x == k).map(|(_, v)| Rv::Val(v.clone())).unwrap_or(Rv::Nothing),
+                _ => Rv::Nothing,
+            },
+            "size" => match arg(0) {
+                Some(V::Arr(l)) => some(V::Int(l.len() as i128)),
+                Some(V::Obj(o)) => some(V::Int(o.len() as i128)),
+                Some(V::Str(s)) => some(V::Int(s.chars().count() as i128)),
+                _ => Rv::Nothing,
+            },
+            "take" | "take_last" => {
+                let n = match count(&arg(1)) {
+                    Cnt::N(n) => n,
+                    Cnt::Nothing => return Rv::Nothing,
+                    Cnt::Unk => return Rv::Unknown,
+                };
+                let first = name == "take";
+                match arg(0) {
+                    Some(V::Arr(l)) => {
+                        let k = n.min(l.len());
+                        some(V::Arr(if first { l[..k].to_vec() } else { l[l.len() - k..].to_vec() }))
+                    }
+                    Some(V::Obj(o)) => {
+                        let k = n.min(o.len());
+                        some(V::Obj(if first { o[..k].to_vec() } else { o[o.len() - k..].to_vec() }))
+                    }
+                    Some(V::Str(s)) => {
+                        let cs: Vec<char> = s.chars().collect();
+                        let k = n.min(cs.len());
+                        some(V::Str(if first { cs[..k].iter().collect() } else { cs[cs.len() - k..].iter().collect() }))
+                    }
+                    _ => Rv::Nothing,
+                }
+            }
+            "sub" => {
+                let (st, len) = match (count(&arg(1)), count(&arg(2))) {
+                    (Cnt::Nothing, _) | (_, Cnt::Nothing) => return Rv::Nothing,
+                    (Cnt::Unk, _) | (_, Cnt::Unk) => return Rv::Unknown,
+                    (Cnt::N(a), Cnt::N(b)) => (a, b),
+                };
+                match arg(0) {
+                    Some(V::Arr(l)) => some(V::Arr(l.into_iter().skip(st).take(len).collect())),
+                    Some(V::Obj(o)) => some(V::Obj(o.into_iter().skip(st).take(len).collect())),
+                    Some(V::Str(s)) => some(V::Str(s.chars().skip(st).take(len).collect())),
+                    _ => Rv::Nothing,
+                }
+            }
+            "head" | "tail" => match (arg(0), count(&arg(1))) {
+                (Some(V::Str(s)), Cnt::N(n)) => {
+                    let cs: Vec<char> = s.chars().collect();
+                    if name == "head" {
+                        some(V::Str(cs.iter().take(n).collect()))
+                    } else if n > cs.len() {
+                        // (tail "test-123" 20) is documented as "test-123"
+                        some(V::Str(s))
+                    } else {
+                        some(V::Str(cs.iter().skip(n).collect()))
+                    }
+                }
+                (Some(V::Str(_)), Cnt::Unk) => Rv::Unknown,
+                _ => Rv::Nothing,
+            },
+            "first" => match arg(0) {
+                Some(V::Arr(l)) => l.first().cloned().map(Rv::Val).unwrap_or(Rv::Nothing),
+                _ => Rv::Nothing,
+            },
+            "last" => match arg(0) {
+                Some(V::Arr(l)) => l.last().cloned().map(Rv::Val).unwrap_or(Rv::Nothing),
+                _ => Rv::Nothing,
+            },
+            "pop" => match arg(0) {
+                Some(V::Arr(mut l)) => {
+                    l.pop();
+                    some(V::Arr(l))
+                }
+                _ => Rv::Nothing,
+            },
+            "pop_first" => match arg(0) {
+                Some(V::Arr(l)) => some(V::Arr(l.into_iter().skip(1).collect())),
+                _ => Rv::Nothing,
+            },
+            "reverese" => match arg(0) {
+                Some(V::Arr(mut l)) => {
+                    l.reverse();
+                    some(V::Arr(l))
+                }
+                _ => Rv::Nothing,
+            },
+            "push" | "push_front" => match arg(0) {
+                Some(V::Arr(mut l)) => {
+                    for x in v.iter().skip(1).flatten() {
+                        if name == "push" { l.push(x.clone()) } else { l.insert(0, x.clone()) }
+                    }
+                    some(V::Arr(l))
+                }
+                _ => Rv::Nothing,
+            },
+            "keys" => match arg(0) {
+                Some(V::Obj(o)) => some(V::Arr(o.into_iter().map(|(k, _)| V::Str(k)).collect())),
+                _ => Rv::Nothing,
+            },
+            "values" => match arg(0) {
+                Some(V::Obj(o)) => some(V::Arr(o.into_iter().map(|(_, v)| v).collect())),
+                _ => Rv::Nothing,
+            },
+            "entries" => match arg(0) {
+                Some(V::Obj(o)) => some(V::Arr(o.into_iter().map(|(k, v)| V::Obj(vec![("key".into(), V::Str(k)), ("value".into(), v)])).collect())),
+                _ => Rv::Nothing,
+            },
+            "indexed" => match arg(0) {
+                Some(V::Arr(l)) => some(V::Arr(l.into_iter().enumerate().map(|(i, v)| V::Obj(vec![("value".into(), v), ("index".into(), V::Int(i as i128))])).collect())),
+                _ => Rv::Nothing,
+            },
+            "not" => match arg(0) {
+                Some(V::Bool(b)) => boolean(!b),
+                _ => Rv::Nothing,
+            },
+            "xor" => match (arg(0), arg(1)) {
+                (Some(V::Bool(a)), Some(V::Bool(b))) => boolean(a ^ b),
+                _ => Rv::Nothing,
+            },
+            "and" | "or" => {
+                // "nothing if there is a non boolean argument and false if there is a false argument":
+                // a false (true for `or`) next to a non-boolean is left open
+                let decisive = name == "or";
+                let non_bool = v.iter().any(|x| !matches!(x, Some(V::Bool(_))));
+                let has_decisive = v.iter().any(|x| *x == Some(V::Bool(decisive)));
+                match (non_bool, has_decisive) {
+                    (false, d) => boolean(if decisive { d } else { !d }),
+                    (true, false) => Rv::Nothing,
+                    (true, true) => Rv::Unknown,
+                }
+            }
+            "=" | "!=" => match (arg(0), arg(1)) {
+                (Some(a), Some(b)) => match eq_known(&a, &b) {
+                    Some(e) => boolean(e == (name == "=")),
+                    None => Rv::Unknown,
+                },
+                _ => Rv::Nothing,
+            },
+            "<" | "<=" | ">" | ">=" => match (arg(0), arg(1)) {
+                (Some(a), Some(b)) => match ord_known(&a, &b) {
+                    Some(o) => boolean(match name {
+                        "<" => o == Ordering::Less,
+                        "<=" => o != Ordering::Greater,
+                        ">" => o == Ordering::Greater,
+                        _ => o != Ordering::Less,
+                    }),
+                    None => Rv::Unknown,
+                },
+                _ => Rv::Nothing,
+            },
+            "empty?" => boolean(arg(0).is_none()),
+            "null?" | "number?" | "string?" | "array?" | "object?" | "bool?" => match arg(0) {
+                // what a type predicate says about nothing is not documented
+                None => Rv::Unknown,
+                Some(x) => boolean(match name {
+                    "null?" => matches!(x, V::Null),
+                    "number?" => matches!(x, V::Int(_) | V::Float(_)),
+                    "string?" => matches!(x, V::Str(_)),
+                    "array?" => matches!(x, V::Arr(_)),
+                    "object?" => matches!(x, V::Obj(_)),
+                    _ => matches!(x, V::Bool(_)),
+                }),
+            },
+            "as_array" | "as_boolean" | "as_number" | "as_object" | "as_string" => match arg(0) {
+                Some(x) => {
+                    let ok = match name {
+                        "as_array" => matches!(x, V::Arr(_)),
+                        "as_boolean" => matches!(x, V::Bool(_)),
+                        "as_number" => matches!(x, V::Int(_) | V::Float(_)),
+                        "as_object" => matches!(x, V::Obj(_)),
+                        _ => matches!(x, V::Str(_)),
+                    };
+                    if ok { some(x) } else { Rv::Nothing }
+                }
+                None => Rv::Nothing,
+            },
+            "concat" => {
+                let mut s = String::new();
+                for x in &v {
+                    match x {
+                        Some(V::Str(t)) => s.push_str(t),
+                        _ => return Rv::Nothing,
+                    }
+                }
+                some(V::Str(s))
+            }
+            "join" => {
+                let sep = if args.len() < 2 {
+                    ", ".to_string()
+                } else {
+                    match arg(1) {
+                        Some(V::Str(s)) => s,
+                        _ => return Rv::Unknown, // a separator that is not a string: not documented
+                    }
+                };
+                match arg(0) {
+                    Some(V::Arr(l)) => {
+                        let mut parts = vec![];
+                        for x in l {
+                            match x {
+                                V::Str(t) => parts.push(t),
+                                _ => return Rv::Nothing,
+                            }
+                        }
+                        some(V::Str(parts.join(&sep)))
+                    }
+                    _ => Rv::Nothing,
+                }
+            }
+            "all" => match arg(0) {
+                Some(V::Arr(l)) => boolean(!l.is_empty() && l.iter().all(|x| *x == V::Bool(true))),
+                _ => Rv::Nothing,
+            },
+            "any" => match arg(0) {
+                Some(V::Arr(l)) => boolean(l.iter().any(|x| *x == V::Bool(true))),
+                _ => Rv::Nothing,
+            },
+            "range" => match count(&arg(0)) {
+                Cnt::N(n) if (1..=1000).contains(&n) => some(V::Arr((0..n).map(|i| V::Int(i as i128)).collect())),
+                Cnt::N(_) | Cnt::Unk => Rv::Unknown,
+                Cnt::Nothing => Rv::Nothing,
+            },
+            "put" | "insert_if_absent" | "replace_if_exists" => match (arg(0), arg(1), arg(2)) {
+                (Some(V::Obj(mut o)), Some(V::Str(k)), Some(x)) => {
+                    let pos = o.iter().position(|(k2, _)| *k2 == k);
+                    match (name, pos) {
+                        ("put", Some(p)) | ("replace_if_exists", Some(p)) => o[p].1 = x,
+                        ("put", None) | ("insert_if_absent", None) => o.push((k, x)),
+                        _ => {}
+                    }
+                    some(V::Obj(o))
+                }
+                _ => Rv::Nothing,
+            },
+            "stringify" => match arg(0) {
+                Some(V::Int(i)) => some(V::Str(i.to_string())),
+                Some(V::Bool(b)) => some(V::Str(b.to_string())),
+                Some(V::Null) => some(V::Str("null".into())),
+                None => Rv::Nothing,
+                _ => Rv::Unknown,
+            },
+            "sort" | "sort_unique" => match arg(0) {
+                Some(V::Arr(mut l)) => {
+                    // only when the documented order settles every pair
+                    for i in 0..l.len() {
+                        for j in i + 1..l.len() {
+                            match ord_known(&l[i], &l[j]) {
+                                None => return Rv::Unknown,
+                                Some(Ordering::Equal) if !same(&l[i], &l[j]) => return Rv::Unknown,
+                                _ => {}
+                            }
+                        }
+                    }
+                    l.sort_by(|a, b| ord_known(a, b).unwrap_or(Ordering::Equal));
+                    if name == "sort_unique" {
+                        l.dedup_by(|a, b| same(a, b));
+                    }
+                    some(V::Arr(l))
+                }
+                _ => Rv::Nothing,
+            },
+            _ => Rv::Unknown,
+        }
+    }
+}
+
+/// an `entries` / `indexed` item: the text names its two members, the example and the program order them differently
+fn pairish(x: &[(String, V)]) -> bool {
+    x.iter().any(|(k, _)| k == "value") && x.iter().any(|(k, _)| k == "key" || k == "index")
+}
+
+/// equality of a printed result with the prescribed one: element and member order count, integers are exact
+pub fn same(a: &V, b: &V) -> bool {
+    match (a, b) {
+        (V::Int(x), V::Int(y)) => x == y,
+        (V::Float(x), V::Float(y)) => x == y,
+        (V::Arr(x), V::Arr(y)) => x.len() == y.len() && x.iter().zip(y).all(|(p, q)| same(p, q)),
+        (V::Obj(x), V::Obj(y)) => {
+            if x.len() != y.len() {
+                return false;
+            }
+            // the two members of an `entries` / `indexed` item: the text names them, the example and
+            // the program order them differently
+            if pairish(x) {
+                return x.iter().all(|(k, p)| y.iter().any(|(k2, q)| k == k2 && same(p, q)));
+            }
+            x.iter().zip(y).all(|((k, p), (k2, q))| k == k2 && same(p, q))
+        }
+        _ => a == b,
+    }
+}
+
+/// the values of a clean white-space separated stream
+fn parse_stream(bytes: &[u8]) -> Option<Vec<V>> {
+    let mut p = Strict::new(bytes);
+    let mut out = vec![];
+    while !p.at_end() {
+        out.push(p.value().ok()?);
+    }
+    Some(out)
+}
+
+fn stdin_bytes(c: &Case) -> &[u8] {
+    c.sources.iter().find(|s| s.name.is_none()).map(|s| s.bytes.as_slice()).unwrap_or(&[])
+}
+
+fn plain_select_run(c: &Case) -> bool {
+    let s = &c.spec;
+    s.filter.is_none() && s.split.is_none() && s.group.is_none() && s.sorts.is_empty() && s.skip == 0 && s.take.is_none() && !s.unique && !s.ooa
+        && s.sets.is_empty() && s.style.is_none() && s.jstyle.is_none() && s.rowsep.is_none() && !s.selects.is_empty()
+        && c.sources.len() == 1 && c.sources[0].name.is_none()
+}
+
+/// compare every selection of a select-only JSON run with the reference evaluator.
+/// Ok((known, total)) = number of (record, selection) pairs that were settled and agreed.
+fn check_selects(c: &Case, o: &Obs) -> Result<(usize, usize), String> {
+    if !plain_select_run(c) {
+        return Ok((0, 0));
+    }
+    let Some(records) = parse_stream(stdin_bytes(c)) else { return Ok((0, 0)) };
+    let sels: Vec<Option<(Ast, String)>> = c.spec.selects.iter().map(|s| parse_selection(s)).collect();
+    let names: Vec<&String> = sels.iter().flatten().map(|(_, n)| n).collect();
+    for (i, n) in names.iter().enumerate() {
+        if names[..i].contains(n) {
+            return Ok((0, 0));
+        }
+    }
+    let total = records.len() * c.spec.selects.len();
+    if sels.iter().all(|s| s.is_none()) {
+        return Ok((0, total));
+    }
+    let rows = crate::props::parse_rows(&o.out, "\n").map_err(|e| format!("{}: {e}", c.id))?;
+    if rows.len() != records.len() {
+        return Err(format!("{}: {} input values but {} rows", c.id, records.len(), rows.len()));
+    }
+    let lines: Vec<&[u8]> = o.out.split(|b| *b == b'\n').collect();
+    let mut known = 0;
+    for (ri, (rec, row)) in records.iter().zip(&rows).enumerate() {
+        let V::Obj(members) = row else { return Err(format!("{}: row {ri} is not an object: {}", c.id, show(row))) };
+        for (si, sel) in sels.iter().enumerate() {
+            let Some((ast, name)) = sel else { continue };
+            let want = Eval::new().eval(ast, rec, &[]);
+            let got = members.iter().find(|(k, _)| k == name).map(|(_, v)| v);
+            let what = || format!("{}: `{}` on {}", c.id, c.spec.selects[si], show(rec));
+            match (&want, got) {
+                (Rv::Unknown, _) => continue,
+                (Rv::Nothing, None) => {}
+                (Rv::Nothing, Some(g)) => return Err(format!("{} must be nothing, got {}", what(), show(g))),
+                (Rv::Val(w), None) => return Err(format!("{} must be {}, got nothing", what(), show(w))),
+                (Rv::Val(w), Some(g)) => {
+                    if !same(w, g) {
+                        return Err(format!("{} must be {}, got {}", what(), show(w), show(g)));
+                    }
+                    // a numeric result with zero fractional part is printed as an integer
+                    if let (V::Int(i), 1) = (w, members.len()) {
+                        let line: String = String::from_utf8_lossy(lines.get(ri).copied().unwrap_or(&[])).chars().filter(|ch| *ch != ' ').collect();
+                        let mut key = String::new();
+                        value::escape_canonical(name, &mut key);
+                        if name.is_ascii() && line != format!("{{{key}:{i}}}") {
+                            return Err(format!("{} must be printed as the integer {i}, row is {}", what(), String::from_utf8_lossy(lines[ri])));
+                        }
+                    }
+                }
+                (Rv::Dec(_), None) => return Err(format!("{} must be a number as string, got nothing", what())),
+                (Rv::Dec(w), Some(g)) => {
+                    let gd = if let V::Str(s) = g { Dec::parse(s) } else { None };
+                    match gd {
+                        Some(d) if d == *w => {}
+                        _ => return Err(format!("{} must be the decimal {}, got {}", what(), w.show(), show(g))),
+                    }
+                }
+            }
+            known += 1;
+        }
+    }
+    Ok((known, total))
+}
+
+// =================================================================================== C04
+
+fn c04(g: &Group, obs: &[Obs]) -> Option<String> {
+    for (c, o) in g.cases.iter().zip(obs) {
+        match o.res.as_str() {
+            "ok" => match check_selects(c, o) {
+                Err(e) => return Some(e),
+                Ok((k, n)) => {
+                    if std::env::var("ORB_STATS").is_ok() {
+                        eprintln!("ORBSTAT C04 {} known {k} of {n} {}", if g.labels.iter().any(|l| l == "kind:reference") { "ref" } else { "gen" }, c.spec.selects[0]);
+                    }
+                }
+            },
+            // rejected before reading: whether the text is an expression at all is C18's business
+            "err:config" | "err:clap" => {}
+            "hang" => return Some(format!("{}: evaluating `{}` did not finish within 20 s", c.id, c.spec.selects.join(" ; "))),
+            other => {
+                // an expression that parsed must evaluate to a value or to nothing, never fail
+                let all_parse = c.spec.selects.iter().all(|s| parse_selection(s).is_some());
+                if all_parse && plain_select_run(c) && parse_stream(stdin_bytes(c)).is_some() {
+                    return Some(format!("{}: evaluating `{}` ended with {other}", c.id, c.spec.selects.join(" ; ")));
+                }
+            }
+        }
+    }
+    None
+}
+
+/// C04 generator: 60 % the type-directed generator over the whole function table, 40 % expressions
+/// over exactly the functions the reference evaluator covers, with boundary arguments
+pub fn gen_c04(r: &mut Rng, id: usize) -> Group {
+    if r.chance(60) {
+        let d = r.range(1, 5);
+        return safe_expr_case(r, id, "C04", &crate::exprgen::ExprOpts::default(), d);
+    }
+    gen_c04_ref(r, id)
+}
+
+/// `range` applied to anything but a literal <= 1000 can ask for 2^64 items (RESOURCE RULE): such
+/// expressions are outside the bounded domain of C04/C05 and are drawn again
+pub fn risky_range(e: &str) -> bool {
+    let b = e.as_bytes();
+    let mut i = 0;
+    while let Some(p) = e[i..].find("range") {
+        let mut j = i + p + 5;
+        i = j;
+        while j < b.len() && (b[j] == b' ' || b[j] == b',') {
+            j += 1;
+        }
+        let st = j;
+        while j < b.len() && b[j].is_ascii_digit() {
+            j += 1;
+        }
+        let lit_end = j >= b.len() || b[j] == b' ' || b[j] == b',' || b[j] == b')';
+        if st == j || !lit_end || j - st > 4 || e[st..j].parse::<usize>().map(|n| n > 1000).unwrap_or(true) {
+            return true;
+        }
+    }
+    false
+}
+
+pub fn safe_expr_case(r: &mut Rng, id: usize, prop: &str, eo: &crate::exprgen::ExprOpts, depth: usize) -> Group {
+    loop {
+        let g = crate::gens::gen_expr_case(r, id, prop, eo, depth);
+        if !risky_range(&g.tag) {
+            return g;
+        }
+    }
+}
+
+fn ref_pool(r: &mut Rng) -> V {
+    match r.below(16) {
+        0 => V::Int(0),
+        1 => V::Int(1),
+        2 => V::Int(-3),
+        3 => V::Int((1 << 53) + 1),
+        4 => V::Int((1i128 << 64) - 1),
+        5 => V::Str("".into()),
+        6 => V::Str("a".into()),
+        7 => V::Str("é".into()),
+        8 => V::Str("日本".into()),
+        9 => V::Bool(true),
+        10 => V::Bool(false),
+        11 => V::Null,
+        12 => V::Arr(vec![V::Int(1), V::Int(2)]),
+        13 => V::Obj(vec![("a".into(), V::Int(1))]),
+        14 => V::Float(2.5),
+        _ => V::Int(r.below(5) as i128),
+    }
+}
+
+fn ref_record(r: &mut Rng) -> V {
+    if r.chance(12) {
+        return ref_pool(r);
+    }
+    let mut kvs: Vec<(String, V)> = vec![];
+    let n = *r.pick(&[0usize, 1, 1, 2, 3, 4, 5]);
+    kvs.push(("l".into(), V::Arr((0..n).map(|_| ref_pool(r)).collect())));
+    let n = *r.pick(&[0usize, 1, 2, 3, 4]);
+    let mut o: Vec<(String, V)> = vec![];
+    for k in ["a", "é", "b", "key-1"].iter().take(n) {
+        o.push((k.to_string(), ref_pool(r)));
+    }
+    kvs.push(("o".into(), V::Obj(o)));
+    kvs.push(("s".into(), V::Str(r.ps(&["", "a", "abc", "héllo", "日本語", "aé😃b", "x,y z", "ÿ"]).to_string())));
+    if r.chance(85) {
+        kvs.push(("e".into(), V::Arr(vec![])));
+        kvs.push(("eo".into(), V::Obj(vec![])));
+        kvs.push(("es".into(), V::Str(String::new())));
+    }
+    kvs.push(("n".into(), V::Null));
+    kvs.push(("t".into(), V::Bool(true)));
+    kvs.push(("f".into(), V::Bool(false)));
+    kvs.push(("i".into(), V::Int(r.below(4) as i128)));
+    kvs.push(("big".into(), V::Int((1i128 << 64) - 1)));
+    kvs.push(("neg".into(), V::Int(-3)));
+    kvs.push(("fl".into(), V::Float(2.5)));
+    kvs.push(("ss".into(), V::Arr((0..r.below(4)).map(|_| V::Str(r.ps(&["a", "é", "x y", "日", ""]).to_string())).collect())));
+    V::Obj(kvs)
+}
+
+struct RefGen<'a> {
+    r: &'a mut Rng,
+    rec0: V,
+    used: Vec<String>,
+}
+
+const WRONG: &[&str] = &["12", "-1", "2.5", "\"x\"", "true", "null", ".zz", ".n", ".i", ".fl", "[1]", "{}", ".l#9", ".o.zz"];
+
+impl<'a> RefGen<'a> {
+    fn call(&mut self, f: &str, args: Vec<String>) -> String {
+        self.used.push(f.to_string());
+        let mut name = f.to_string();
+        if self.r.chance(25) {
+            if let Some((_, aliases, _, _)) = FUNCTION_TABLE.iter().find(|(n, _, _, _)| *n == f) {
+                if !aliases.is_empty() {
+                    name = self.r.pick(aliases).to_string();
+                }
+            }
+        }
+        let mut s = String::from("(");
+        let mut rest: &[String] = &args;
+        if !args.is_empty() && args[0] == "." && self.r.chance(40) {
+            s.push('.');
+            rest = &args[1..];
+        }
+        s.push_str(&name);
+        for a in rest {
+            s.push_str(match self.r.below(8) {
+                0 => ", ",
+                1 => "  ",
+                2 => " , ",
+                _ => " ",
+            });
+            s.push_str(a);
+        }
+        s.push(')');
+        s
+    }
+
+    fn size_of(&self, e: &str) -> Option<usize> {
+        let a = parse_expr(e)?;
+        match Eval::new().eval(&a, &self.rec0, &[]) {
+            Rv::Val(V::Arr(l)) => Some(l.len()),
+            Rv::Val(V::Obj(o)) => Some(o.len()),
+            Rv::Val(V::Str(s)) => Some(s.chars().count()),
+            _ => None,
+        }
+    }
+
+    /// N relative to the size of the collection on the first record: 0, 1, size-1, size, size+1, huge; or ill-typed / absent
+    fn n_for(&mut self, coll: &str) -> String {
+        if self.r.chance(25) {
+            return self.r.pick(WRONG).to_string();
+        }
+        let size = self.size_of(coll).unwrap_or_else(|| self.r.below(4));
+        match self.r.below(9) {
+            0 => "0".into(),
+            1 => "1".into(),
+            2 => size.saturating_sub(1).to_string(),
+            3 | 4 => size.to_string(),
+            5 => (size + 1).to_string(),
+            6 => "18446744073709551615".into(),
+            7 => self.r.ps(&["9007199254740993", "1000000", "4294967296", "9223372036854775808"]).to_string(),
+            _ => self.r.ps(&["2", "3", ".i", "(size .l)", "(size .s)"]).to_string(),
+        }
+    }
+
+    fn wrong(&mut self) -> String {
+        self.r.pick(WRONG).to_string()
+    }
+
+    fn list(&mut self, d: usize) -> String {
+        if self.r.chance(8) {
+            return self.wrong();
+        }
+        if d == 0 || self.r.chance(25) {
+            return self.r.ps(&[".l", ".l", ".e", ".ss", "[1, 2, 3]", "[]", "[\"a\", \"é\", null]", "[[1], [2, 3], []]", "[true, false, true]", "[true]", "(keys .o)", "(values .o)", ".l#3", "."]).to_string();
+        }
+        let d = d - 1;
+        match self.r.below(19) {
+            0 | 1 => { let l = self.list(d); let n = self.n_for(&l); self.call("take", vec![l, n]) }
+            2 | 3 => { let l = self.list(d); let n = self.n_for(&l); self.call("take_last", vec![l, n]) }
+            4 | 5 => { let l = self.list(d); let n = self.n_for(&l); let m = self.n_for(&l); self.call("sub", vec![l, n, m]) }
+            6 => { let l = self.list(d); self.call("reverese", vec![l]) }
+            7 => { let l = self.list(d); let f = self.r.ps(&["pop", "pop_first"]); self.call(f, vec![l]) }
+            8 => { let l = self.list(d); let k = self.r.range(1, 3); let mut v = vec![l]; for _ in 0..k { v.push(self.any(d)); } let f = self.r.ps(&["push", "push_front"]); self.call(f, v) }
+            9 => { let l = self.list(d); let b = self.body(d); self.call("map", vec![l, b]) }
+            10 => { let l = self.list(d); let b = self.bool_body(d); self.call("filter", vec![l, b]) }
+            11 => { let a = self.list(d); let b = self.list(0); self.call("default", vec![a, b]) }
+            12 => { let c = self.boolean(d); let a = self.list(d); let b = self.list(d); self.call("?", vec![c, a, b]) }
+            13 => { let o = self.obj(d); let f = self.r.ps(&["keys", "values", "entries"]); self.call(f, vec![o]) }
+            14 => { let l = self.list(d); self.call("indexed", vec![l]) }
+            15 => { let n = self.r.ps(&["1", "2", "5", "-1", "\"2\"", ".i", "(size .l)"]).to_string(); self.call("range", vec![n]) }
+            16 => { let l = self.list(d); self.call("as_array", vec![l]) }
+            17 => { let l = self.list(d); let f = self.r.ps(&["sort", "sort_unique"]); self.call(f, vec![l]) }
+            _ => { let l = self.list(d); let i = self.n_for(&l); self.call("get", vec![l, i]) }
+        }
+    }
+
+    fn body(&mut self, d: usize) -> String {
+        match self.r.below(8) {
+            0 => ".".into(),
+            1 => "(size .)".into(),
+            2 => "^.i".into(),
+            3 => "(take . 1)".into(),
+            4 => "(push ^.e . ^.i)".into(),
+            5 => "(get ^.l .)".into(),
+            6 => "(? (number? .) . ^.s)".into(),
+            _ => self.any(d.min(1)),
+        }
+    }
+
+    fn bool_body(&mut self, d: usize) -> String {
+        match self.r.below(7) {
+            0 => "(number? .)".into(),
+            1 => "(string? .)".into(),
+            2 => "(= . ^.i)".into(),
+            3 => "(< . 2)".into(),
+            4 => "(not (null? .))".into(),
+            5 => ".".into(),
+            _ => self.boolean(d.min(1)),
+        }
+    }
+
+    fn obj(&mut self, d: usize) -> String {
+        if self.r.chance(8) {
+            return self.wrong();
+        }
+        if d == 0 || self.r.chance(30) {
+            return self.r.ps(&[".o", ".o", ".eo", ".", "{\"a\": 1, \"b\": [2], \"c\": \"x\"}", "{}", "{\"é\": null}", "{\"k\": {\"k\": 1}, \"a\": 2}"]).to_string();
+        }
+        let d = d - 1;
+        match self.r.below(9) {
+            0 | 1 => { let o = self.obj(d); let n = self.n_for(&o); let f = self.r.ps(&["take", "take_last"]); self.call(f, vec![o, n]) }
+            2 => { let o = self.obj(d); let n = self.n_for(&o); let m = self.n_for(&o); self.call("sub", vec![o, n, m]) }
+            3 | 4 => {
+                let o = self.obj(d);
+                let k = if self.r.chance(85) { self.r.ps(&["\"a\"", "\"é\"", "\"new\"", "\"\"", ".s", "(first (keys .o))"]).to_string() } else { self.wrong() };
+                let v = self.any(d);
+                let f = self.r.ps(&["put", "insert_if_absent", "replace_if_exists"]);
+                self.call(f, vec![o, k, v])
+            }
+            5 => { let a = self.obj(d); let b = self.obj(0); self.call("default", vec![a, b]) }
+            6 => { let o = self.obj(d); self.call("as_object", vec![o]) }
+            7 => { let c = self.boolean(d); let a = self.obj(d); let b = self.obj(d); self.call("?", vec![c, a, b]) }
+            _ => { let l = self.r.ps(&["(entries .o)", "(indexed .l)", "[{\"a\": 1}, {}]"]).to_string(); let i = self.n_for(&l); self.call("get", vec![l, i]) }
+        }
+    }
+
+    fn strg(&mut self, d: usize) -> String {
+        if self.r.chance(8) {
+            return self.wrong();
+        }
+        if d == 0 || self.r.chance(30) {
+            return self.r.ps(&[".s", ".s", ".es", "\"héllo\"", "\"\"", "\"abc\"", "\"日本語\"", "\"a😃\"", ".ss#0"]).to_string();
+        }
+        let d = d - 1;
+        match self.r.below(10) {
+            0 | 1 => { let s = self.strg(d); let n = self.n_for(&s); let f = self.r.ps(&["take", "take_last", "head", "tail"]); self.call(f, vec![s, n]) }
+            2 => { let s = self.strg(d); let n = self.n_for(&s); let m = self.n_for(&s); self.call("sub", vec![s, n, m]) }
+            3 => { let k = self.r.range(2, 3); let v: Vec<String> = (0..k).map(|_| self.strg(d)).collect(); self.call("concat", v) }
+            4 | 5 => {
+                let l = if self.r.chance(70) { self.r.ps(&[".ss", "(keys .o)", "[\"a\", \"b\", \"c\"]", "[\"x\"]", "[]", "[\"a\", 1]", "(take .ss 1)"]).to_string() } else { self.list(d) };
+                if self.r.chance(50) { self.call("join", vec![l]) } else { let s = self.r.ps(&["\"\"", "\" ; \"", "\"é\"", ".s", "12"]).to_string(); self.call("join", vec![l, s]) }
+            }
+            6 => { let a = self.strg(d); let b = self.strg(0); self.call("default", vec![a, b]) }
+            7 => { let s = self.strg(d); self.call("as_string", vec![s]) }
+            8 => { let x = self.r.ps(&[".i", ".big", ".neg", ".t", ".n", "(size .l)", ".zz"]).to_string(); self.call("stringify", vec![x]) }
+            _ => { let o = self.obj(d); let k = self.call("keys", vec![o]); let f = self.r.ps(&["first", "last"]); self.call(f, vec![k]) }
+        }
+    }
+
+    fn boolean(&mut self, d: usize) -> String {
+        if self.r.chance(10) {
+            return self.wrong();
+        }
+        if d == 0 || self.r.chance(25) {
+            return self.r.ps(&["true", "false", ".t", ".f"]).to_string();
+        }
+        let d = d - 1;
+        match self.r.below(10) {
+            0 | 1 | 2 => {
+                let a = self.any(d);
+                let b = if self.r.chance(35) { a.clone() } else { self.any(d) };
+                let f = self.r.ps(&["=", "!=", "<", "<=", ">", ">="]);
+                self.call(f, vec![a, b])
+            }
+            3 | 4 => { let k = self.r.range(2, 4); let v: Vec<String> = (0..k).map(|_| self.boolean(d)).collect(); let f = self.r.ps(&["and", "or"]); self.call(f, v) }
+            5 => { let a = self.boolean(d); self.call("not", vec![a]) }
+            6 => { let a = self.boolean(d); let b = self.boolean(d); self.call("xor", vec![a, b]) }
+            7 => { let a = self.any(d); let f = self.r.ps(&["array?", "bool?", "empty?", "null?", "number?", "object?", "string?"]); self.call(f, vec![a]) }
+            8 => { let l = if self.r.chance(60) { self.r.ps(&["[true, true]", "[true, false]", "[]", "[1, true]", "(map .l (number? .))"]).to_string() } else { self.list(d) }; let f = self.r.ps(&["all", "any"]); self.call(f, vec![l]) }
+            _ => { let c = self.boolean(d); let a = self.boolean(d); let b = self.boolean(d); self.call("?", vec![c, a, b]) }
+        }
+    }
+
+    fn any(&mut self, d: usize) -> String {
+        match self.r.below(12) {
+            0 | 1 => self.list(d),
+            2 => self.obj(d),
+            3 | 4 => self.strg(d),
+            5 => self.boolean(d),
+            6 => { let c = match self.r.below(3) { 0 => self.list(d), 1 => self.obj(d), _ => self.strg(d) }; self.call("size", vec![c]) }
+            7 => { let l = self.list(d); let f = self.r.ps(&["first", "last"]); self.call(f, vec![l]) }
+            8 => { let o = self.obj(d); let k = self.r.ps(&["\"a\"", "\"é\"", "\"zz\"", "0", ".s"]).to_string(); self.call("get", vec![o, k]) }
+            9 => self.r.ps(&["0", "1", "-3", "2.5", "18446744073709551615", "9007199254740993", "null", "\"a\"", ".i", ".big", ".neg", ".fl", ".n"]).to_string(),
+            10 => { let x = self.any(d.saturating_sub(1)); let f = self.r.ps(&["as_number", "as_boolean", "as_string", "as_array", "as_object"]); self.call(f, vec![x]) }
+            _ => { let k = self.r.range(1, 3); let v: Vec<String> = (0..k).map(|_| self.any(d.saturating_sub(1))).collect(); self.call("default", v) }
+        }
+    }
+}
+
+pub fn gen_c04_ref(r: &mut Rng, id: usize) -> Group {
+    let n = r.range(1, 3);
+    let recs: Vec<V> = (0..n).map(|_| ref_record(r)).collect();
+    let depth = r.range(1, 3);
+    let (e, used) = {
+        let mut g = RefGen { r, rec0: recs[0].clone(), used: vec![] };
+        let e = match g.r.below(5) {
+            0 => g.list(depth),
+            1 => g.obj(depth),
+            2 => g.strg(depth),
+            3 => g.boolean(depth),
+            _ => g.any(depth),
+        };
+        (e, g.used)
+    };
+    let mut c = Case { id: format!("C04-{id}"), mode: "run".into(), ..Default::default() };
+    c.spec.selects.push(format!("{e}=x"));
+    c.spec.utf8 = true;
+    let text: Vec<String> = recs.iter().map(value::render).collect();
+    c.sources.push(stdin_src(text.join("\n").into_bytes()));
+    let mut g = Group::new(vec![c]);
+    g.values = recs;
+    g.tag = e.clone();
+    g.nontrivial = e.matches('(').count() >= 2;
+    g.labels.push("kind:reference".into());
+    for f in used {
+        g.labels.push(format!("fn:{f}"));
+    }
+    g
+}
+
+// =================================================================================== C05
+
+fn c05(g: &Group, obs: &[Obs]) -> Option<String> {
+    for (c, o) in g.cases.iter().zip(obs) {
+        let res = o.res.replace("+overrun", "");
+        if !(res == "ok" || res.starts_with("err:")) {
+            return Some(format!("{}: the run ended with `{}` instead of success or an error {}", c.id, o.res, o.panic_msg));
+        }
+        // well-formed input text gives well-formed output text
+        let input_utf8 = c.sources.iter().all(|s| std::str::from_utf8(&s.bytes).is_ok());
+        if input_utf8 {
+            if let Err(e) = std::str::from_utf8(&o.out) {
+                return Some(format!("{}: the input is valid UTF-8 but standard output is not (byte {})", c.id, e.valid_up_to()));
+            }
+            if let Err(e) = std::str::from_utf8(&o.err) {
+                return Some(format!("{}: the input is valid UTF-8 but standard error is not (byte {})", c.id, e.valid_up_to()));
+            }
+        }
+    }
+    None
+}
+
+fn c05_case(id: usize) -> Case {
+    Case { id: format!("C05-{id}"), mode: "run".into(), ..Default::default() }
+}
+
+const POLICIES: &[&str] = &["ignore", "panic", "stderr", "stdout"];
+
+/// integers at the edges of every integer type jawk converts through
+pub const EDGE_INTS: &[&str] = &["0", "1", "9007199254740992", "9223372036854775808", "18446744073709551615", "-1", "-9223372036854775808"];
+
+fn json_lit(s: &str) -> String {
+    let mut t = String::new();
+    value::escape_canonical(s, &mut t);
+    t
+}
+
+/// the additional C05 generators: (a) byte soup over the JSON-significant alphabet, (b) deep nesting,
+/// (c) multi-byte characters across byte 30..34 of every kind of expression text, (d) every function
+/// of the table called with edge integers and ill-typed arguments
+pub fn gen_c05_extra(r: &mut Rng, id: usize) -> Group {
+    match r.below(10) {
+        0 | 1 | 2 => gen_c05_bytes(r, id),
+        3 | 4 => gen_c05_deep(r, id),
+        5 | 6 => gen_c05_straddle(r, id),
+        _ => gen_c05_calls(r, id),
+    }
+}
+
+fn gen_c05_bytes(r: &mut Rng, id: usize) -> Group {
+    let mut alphabet: Vec<u8> = b"{}[]:,\"\\/u019-+.eEtrnfals \n".to_vec();
+    alphabet.extend_from_slice(&[0x80, 0xc3, 0xa9, 0xe6, 0x97, 0xa5, 0xf0, 0x9f, 0x98, 0x83, 0xff, 0xc0, 0xed, 0xa0]);
+    let bytes: Vec<u8> = if r.chance(60) {
+        let n = r.below(41);
+        (0..n).map(|_| *r.pick(&alphabet)).collect()
+    } else {
+        // a conforming text with a few byte-level accidents: reaches the deep states of the reader
+        let o = value::GenOpts::default();
+        let mut b = value::render(&value::gen_value(r, &o, 0)).into_bytes();
+        b.truncate(40);
+        for _ in 0..r.range(1, 3) {
+            if b.is_empty() {
+                break;
+            }
+            let p = r.below(b.len());
+            match r.below(4) {
+                0 => b[p] = *r.pick(&alphabet),
+                1 => {
+                    b.remove(p);
+                }
+                2 => b.insert(p, *r.pick(&alphabet)),
+                _ => b.truncate(p),
+            }
+        }
+        b
+    };
+    let mut c = c05_case(id);
+    c.spec.on_error = Some(r.pick(POLICIES).to_string());
+    match r.below(6) {
+        0 => c.spec.selects.push("(size .)=x".into()),
+        1 => c.spec.ooa = true,
+        2 => c.spec.sorts.push(".".into()),
+        _ => {}
+    }
+    if r.chance(15) {
+        c.chunks = vec![1];
+    }
+    let len = bytes.len();
+    c.sources.push(stdin_src(bytes));
+    let mut g = Group::new(vec![c]);
+    g.labels.push("kind:bytes40".into());
+    g.labels.push(format!("len:{}", crate::gens::bucket(len)));
+    g
+}
+
+fn gen_c05_deep(r: &mut Rng, id: usize) -> Group {
+    let depth = *r.pick(&[1usize, 2, 8, 31, 32, 33, 48, 63, 64]);
+    let mut open = String::new();
+    let mut close = String::new();
+    for _ in 0..depth {
+        if r.chance(50) {
+            open.push('[');
+            close.insert(0, ']');
+        } else {
+            open.push_str("{\"k\":");
+            close.insert(0, '}');
+        }
+    }
+    let core = r.ps(&["1", "\"é\"", "null", "[]", "{}", ""]);
+    let mut text = format!("{open}{core}{close}");
+    match r.below(5) {
+        0 => {
+            let cut = r.below(text.len() + 1);
+            let mut b = text.into_bytes();
+            b.truncate(cut);
+            text = String::from_utf8_lossy(&b).into_owned();
+        }
+        1 => text.push_str(&"]}".repeat(r.range(1, 3))),
+        _ => {}
+    }
+    let mut c = c05_case(id);
+    c.spec.on_error = Some(r.pick(POLICIES).to_string());
+    let kind;
+    match r.below(5) {
+        0 => {
+            // nested data
+            kind = "data";
+            if r.chance(40) {
+                c.spec.selects.push(r.ps(&["(size .)=x", "(stringify .)=x", ".k.k.k=x", "#0#0#0=x", "(= . .)=x", "(sort (push [] . .))=x"]).to_string());
+            }
+            if r.chance(20) {
+                c.spec.jstyle = Some("pretty".into());
+            }
+            c.sources.push(stdin_src(text.into_bytes()));
+        }
+        1 => {
+            // the same text as a literal inside an expression
+            kind = "literal";
+            c.spec.selects.push(format!("(size {text})=x"));
+            c.sources.push(stdin_src(b"1".to_vec()));
+        }
+        2 => {
+            kind = "parse";
+            c.spec.selects.push(format!("(parse {})=x", json_lit(&text)));
+            c.spec.utf8 = true;
+            c.sources.push(stdin_src(b"1".to_vec()));
+        }
+        3 => {
+            // nested calls
+            kind = "calls";
+            let (f, leaf) = *r.pick(&[("not", "true"), ("size", ".l"), ("first", ".l"), ("reverese", ".l"), ("keys", "."), ("\"-\"", "\"1.5\""), ("-", "1"), ("as_array", ".l"), ("parse", "\"[1]\"")]);
+            let mut e = leaf.to_string();
+            for _ in 0..depth {
+                e = format!("({f} {e})");
+            }
+            c.spec.selects.push(format!("{e}=x"));
+            c.sources.push(stdin_src(b"{\"l\":[[[[1]]]],\"k\":{\"k\":1}}".to_vec()));
+        }
+        _ => {
+            kind = "parse_selection";
+            let mut e = ".".to_string();
+            for _ in 0..depth.min(40) {
+                e = format!("(push [] {e})");
+            }
+            c.spec.selects.push(format!("(parse_selection {})=x", json_lit(&e)));
+            c.sources.push(stdin_src(b"1 [2]".to_vec()));
+        }
+    }
+    let mut g = Group::new(vec![c]);
+    g.labels.push(format!("kind:deep:{kind}"));
+    g.labels.push(format!("depth:{}", crate::gens::bucket(depth)));
+    g
+}
+
+fn gen_c05_straddle(r: &mut Rng, id: usize) -> Group {
+    // a multi-byte character starting at byte 29..34 of the text handed to a reader
+    let ch = r.ps(&["é", "日", "😃", "ÿ", "\u{7ff}", "\u{800}"]);
+    let at = r.range(29, 34);
+    let tail = "b".repeat(r.below(4));
+    let mut c = c05_case(id);
+    c.spec.utf8 = r.chance(70);
+    let pos = r.below(9);
+    // text = prefix + pad + ch + tail + suffix with the character at byte offset `at` of the text
+    let build = |prefix: &str, suffix: &str| -> String {
+        let pad = at.saturating_sub(prefix.len());
+        format!("{prefix}{}{ch}{tail}{suffix}", "a".repeat(pad))
+    };
+    let kind;
+    match pos {
+        0 => {
+            kind = "select";
+            c.spec.selects.push(build("(size \"", "\")=x"));
+        }
+        1 => {
+            kind = "select-key";
+            c.spec.selects.push(build(".", "=x"));
+        }
+        2 => {
+            kind = "filter";
+            c.spec.filter = Some(build("(string? \"", "\")"));
+        }
+        3 => {
+            kind = "sort";
+            c.spec.sorts.push(build("(concat \"", "\" .s)"));
+        }
+        4 => {
+            kind = "group";
+            c.spec.group = Some(Some(build("(concat \"", "\" .s)")));
+        }
+        5 => {
+            kind = "set";
+            c.spec.sets.push(build("v=\"", "\""));
+            c.spec.selects.push(":v=x".into());
+        }
+        6 => {
+            kind = "parse";
+            let inner = match r.below(3) {
+                0 => build("\"", "\""),
+                1 => build("[\"", "\", 1]"),
+                _ => build("{\"", "\": 1}"),
+            };
+            c.spec.selects.push(format!("(parse {})=x", json_lit(&inner)));
+        }
+        7 => {
+            kind = "parse_selection";
+            let inner = build("(concat \"", "\" \"x\")");
+            c.spec.selects.push(format!("(parse_selection {})=x", json_lit(&inner)));
+        }
+        _ => {
+            kind = "name";
+            c.spec.selects.push(format!(".s={}", build("", "")));
+            if r.chance(50) {
+                c.spec.style = Some("csv".into());
+                c.spec.utf8 = false;
+            }
+        }
+    }
+    c.sources.push(stdin_src("{\"s\":\"é\"}\n{\"s\":\"a\"}".as_bytes().to_vec()));
+    let mut g = Group::new(vec![c]);
+    g.labels.push(format!("kind:straddle:{kind}"));
+    g
+}
+
+const ORACLE_FNS: &[&str] = &["match", "extract_regex_group", "base63_decode", "format_time", "parse_time", "parse_time_with_zone", "\"/\""];
+
+/// jawk's one-line ASCII display of a literal argument (the key under which the model looks a fact up)
+fn display_of_literal(a: &str) -> String {
+    match value::strict_parse(a.as_bytes()) {
+        Ok(V::Str(s)) => {
+            let mut out = String::from("\"");
+            for ch in s.chars() {
+                match ch {
+                    '"' => out.push_str("\\\""),
+                    '\\' => out.push_str("\\\\"),
+                    '/' => out.push_str("\\/"),
+                    '\n' => out.push_str("\\n"),
+                    '\r' => out.push_str("\\r"),
+                    '\t' => out.push_str("\\t"),
+                    c if (' '..='~').contains(&c) => out.push(c),
+                    c => out.push_str(&format!("\\u{:04x}", c as u32)),
+                }
+            }
+            out.push('"');
+            out
+        }
+        _ => a.to_string(),
+    }
+}
+
+fn gen_c05_calls(r: &mut Rng, id: usize) -> Group {
+    // exec / trigger start processes, now / env read the environment: outside the pure functions
+    let table: Vec<&(&str, &[&str], usize, Option<usize>)> = FUNCTION_TABLE.iter().filter(|(n, _, _, _)| !matches!(*n, "exec" | "trigger" | "now" | "env")).collect();
+    let (name, aliases, lo, hi) = **r.pick(&table);
+    let spelled = if !aliases.is_empty() && r.chance(25) { r.pick(aliases).to_string() } else { name.to_string() };
+    let n_args = match hi {
+        Some(h) => r.range(lo, h),
+        None => r.range(lo, lo + 2),
+    };
+    // producers never get a huge count (resource exhaustion is outside the property)
+    let producer = matches!(name, "range");
+    let args: Vec<String> = (0..n_args)
+        .map(|_| {
+            if producer {
+                r.ps(&["0", "1", "5", "1000", "-1", "2.5", "\"3\"", "[1]", "null", ".zz"]).to_string()
+            } else if r.chance(55) {
+                r.pick(EDGE_INTS).to_string()
+            } else {
+                r.ps(&["\"abc\"", "\"é\"", "\"\"", "[1, 2, 3]", "[]", "{\"a\": 1}", "{}", ".", ".zz", "null", "true", "2.5", "\"%Y-%m-%d\"", "\"1e3\"", "\"(\"", "\"[a-\"", ".l", ".o", ".s",
+                       "(range 3)", "\"18446744073709551615\"", "-0", "1e300"]).to_string()
+            }
+        })
+        .collect();
+    // the model treats regular expressions, clocks, base64 and long division as given facts (`orc=`):
+    // for those functions the arguments are literals and the fact is obtained from the function itself
+    let oracle_backed = ORACLE_FNS.contains(&name);
+    let args: Vec<String> = if oracle_backed {
+        (0..n_args)
+            .map(|_| {
+                if r.chance(45) {
+                    r.pick(EDGE_INTS).to_string()
+                } else {
+                    r.ps(&["\"abc\"", "\"é\"", "\"\"", "\"%Y-%m-%d\"", "\"%H:%M %z\"", "\"%\"", "\"1e3\"", "\"3\"", "\"0.00\"", "\"(\"", "\"[a-\"", "\"(a)(b)?\"", "\"2024-02-30\"", "\"1970-01-01\"",
+                           "\"YWJj\"", "\"18446744073709551615\"", "2.5", "null", "true", "[1, 2, 3]", "{}"]).to_string()
+                }
+            })
+            .collect()
+    } else {
+        args
+    };
+    let e = format!("({spelled} {})", args.join(" "));
+    let mut c = c05_case(id);
+    c.spec.selects.push(format!("{e}=x"));
+    c.spec.utf8 = true;
+    if oracle_backed {
+        let mut probe = c05_case(id);
+        probe.spec.selects.push(format!("({name} {})=x", args.join(" ")));
+        probe.sources.push(stdin_src(b"null".to_vec()));
+        let scratch = std::mem::ManuallyDrop::new(crate::runner::Scratch { dir: "/nonexistent-orb-probe".into() });
+        let o = crate::runner::run_rust(&probe, &scratch);
+        if o.res == "ok" {
+            let text = String::from_utf8_lossy(&o.out).trim_end().to_string();
+            let fact = text.strip_prefix("{\"x\": ").and_then(|x| x.strip_suffix('}')).map(|x| x.to_string());
+            if fact.is_some() || text == "{}" {
+                c.orc.push((name.to_string(), args.iter().map(|a| display_of_literal(a)).collect(), fact));
+            }
+        }
+    }
+    let input = r.ps(&["{\"l\":[1,\"é\",[2]],\"o\":{\"a\":1},\"s\":\"héllo\"}", "18446744073709551615", "-9223372036854775808", "\"日本\"", "[]", "null", "[18446744073709551615, 0, -1]"]);
+    c.sources.push(stdin_src(input.as_bytes().to_vec()));
+    let mut g = Group::new(vec![c]);
+    g.tag = e;
+    g.labels.push("kind:edge-call".into());
+    g.labels.push(format!("fn:{name}"));
+    g
+}
+// =================================================================================== C15
+
+/// RFC 4180 reader, skip-initial-space dialect: ONE blank after a comma is not part of the field,
+/// `""` inside a quoted field is a quote, CR and LF are data inside quotes, a record ends at LF
+/// (or CR LF).  Returns the records as lists of field texts.
+pub fn csv_read(text: &str) -> Result<Vec<Vec<String>>, String> {
+    let cs: Vec<char> = text.chars().collect();
+    let mut recs: Vec<Vec<String>> = vec![];
+    let mut rec: Vec<String> = vec![];
+    let mut i = 0;
+    let n = cs.len();
+    if n == 0 {
+        return Ok(recs);
+    }
+    loop {
+        // at the start of a field
+        let mut field = String::new();
+        if i < n && cs[i] == '"' {
+            i += 1;
+            loop {
+                if i >= n {
+                    return Err(format!("record {}: end of output inside a quoted field", recs.len()));
+                }
+                if cs[i] == '"' {
+                    if i + 1 < n && cs[i + 1] == '"' {
+                        field.push('"');
+                        i += 2;
+                    } else {
+                        i += 1;
+                        break;
+                    }
+                } else {
+                    field.push(cs[i]);
+                    i += 1;
+                }
+            }
+            if i < n && !(cs[i] == ',' || cs[i] == '\n' || (cs[i] == '\r' && i + 1 < n && cs[i + 1] == '\n')) {
+                return Err(format!("record {}: `{}` directly after the closing quote of field {}", recs.len(), cs[i], rec.len()));
+            }
+        } else {
+            while i < n && cs[i] != ',' && cs[i] != '\n' && !(cs[i] == '\r' && i + 1 < n && cs[i + 1] == '\n') {
+                if cs[i] == '"' {
+                    return Err(format!("record {}: a quote inside the unquoted field {}", recs.len(), rec.len()));
+                }
+                field.push(cs[i]);
+                i += 1;
+            }
+        }
+        rec.push(field);
+        if i >= n {
+            return Err(format!("record {}: the last record is not terminated", recs.len()));
+        }
+        if cs[i] == ',' {
+            i += 1;
+            if i < n && cs[i] == ' ' {
+                i += 1;
+            }
+            continue;
+        }
+        // end of record
+        i += if cs[i] == '\r' { 2 } else { 1 };
+        recs.push(std::mem::take(&mut rec));
+        if i >= n {
+            return Ok(recs);
+        }
+    }
+}
+
+fn is_decimal_spelling(t: &str) -> bool {
+    let b = t.as_bytes();
+    let mut i = 0;
+    if i < b.len() && b[i] == b'-' {
+        i += 1;
+    }
+    let st = i;
+    while i < b.len() && b[i].is_ascii_digit() {
+        i += 1;
+    }
+    if i == st {
+        return false;
+    }
+    if i < b.len() && b[i] == b'.' {
+        i += 1;
+        let st = i;
+        while i < b.len() && b[i].is_ascii_digit() {
+            i += 1;
+        }
+        if i == st {
+            return false;
+        }
+    }
+    if i < b.len() && (b[i] == b'e' || b[i] == b'E') {
+        i += 1;
+        if i < b.len() && (b[i] == b'+' || b[i] == b'-') {
+            i += 1;
+        }
+        let st = i;
+        while i < b.len() && b[i].is_ascii_digit() {
+            i += 1;
+        }
+        if i == st {
+            return false;
+        }
+    }
+    i == b.len()
+}
+
+/// the selected values of every record: None = the selection could not be evaluated by the reference
+fn selected_values(c: &Case) -> Option<(Vec<String>, Vec<Vec<Option<V>>>)> {
+    let records = parse_stream(stdin_bytes(c))?;
+    let mut names = vec![];
+    let mut asts = vec![];
+    for s in &c.spec.selects {
+        let (a, n) = parse_selection(s)?;
+        names.push(n);
+        asts.push(a);
+    }
+    let mut rows = vec![];
+    for rec in &records {
+        let mut row = vec![];
+        for a in &asts {
+            match Eval::new().eval(a, rec, &[]) {
+                Rv::Val(v) => row.push(Some(v)),
+                Rv::Nothing => row.push(None),
+                _ => return None,
+            }
+        }
+        rows.push(row);
+    }
+    Some((names, rows))
+}
+
+fn c15(g: &Group, obs: &[Obs]) -> Option<String> {
+    let (c, o) = (&g.cases[0], &obs[0]);
+    let s = &c.spec;
+    if s.filter.is_some() || s.split.is_some() || s.group.is_some() || !s.sorts.is_empty() || s.skip != 0 || s.take.is_some() || s.unique || s.ooa || !s.sets.is_empty() {
+        return None;
+    }
+    let Some((names, rows)) = selected_values(c) else { return None };
+    let n = names.len();
+    if n == 0 {
+        return None;
+    }
+    if o.res != "ok" {
+        return Some(format!("{}: a {} run over clean input ended with {}", c.id, s.style.clone().unwrap_or_default(), o.res));
+    }
+    let Ok(text) = std::str::from_utf8(&o.out) else { return Some(format!("{}: output is not UTF-8", c.id)) };
+    let rowsep = s.rowsep.clone().unwrap_or("\n".into());
+    match s.style.as_deref() {
+        Some("csv") => {
+            if rowsep != "\n" && rowsep != "\r\n" {
+                return None;
+            }
+            let recs = match csv_read(text) {
+                Ok(r) => r,
+                Err(e) => return Some(format!("{}: the csv output is not RFC 4180: {e}", c.id)),
+            };
+            if recs.len() != rows.len() + 1 {
+                return Some(format!("{}: {} input values must give a header and {} records, the csv reader finds {} records", c.id, rows.len(), rows.len(), recs.len()));
+            }
+            for (ri, rec) in recs.iter().enumerate() {
+                if rec.len() != n {
+                    return Some(format!("{}: csv record {ri} has {} fields for {n} selections: {:?}", c.id, rec.len(), rec));
+                }
+            }
+            if recs[0] != names {
+                return Some(format!("{}: csv header {:?} is not the selection names {:?}", c.id, recs[0], names));
+            }
+            for (ri, (rec, want)) in recs[1..].iter().zip(&rows).enumerate() {
+                for (fi, (got, w)) in rec.iter().zip(want).enumerate() {
+                    let ok = match w {
+                        None => got.is_empty(),
+                        Some(V::Null) => got == "null",
+                        Some(V::Bool(b)) => got == if *b { "True" } else { "False" },
+                        Some(V::Str(x)) => got == x,
+                        Some(V::Int(i)) => *got == i.to_string(),
+                        Some(V::Float(f)) => is_decimal_spelling(got) && got.parse::<f64>().map(|x| x == *f).unwrap_or(false),
+                        Some(v) => value::strict_parse(got.as_bytes()).map(|x| same(&x, v)).unwrap_or(false),
+                    };
+                    if !ok {
+                        return Some(format!("{}: csv row {ri} field {fi} ({}) reads back as {:?}, the selected value is {}", c.id, names[fi], got,
+                                            w.as_ref().map(show).unwrap_or("absent".into())));
+                    }
+                }
+            }
+            None
+        }
+        Some("text") => c15_text(c, text, &rowsep, n, &rows),
+        _ => None,
+    }
+}
+
+fn c15_text(c: &Case, text: &str, rowsep: &str, n: usize, rows: &[Vec<Option<V>>]) -> Option<String> {
+    let s = &c.spec;
+    let isep = s.isep.clone().unwrap_or("\t".into());
+    let pre = s.spre.clone().unwrap_or_default();
+    let post = s.spost.clone().unwrap_or_default();
+    let nullkw = s.nullkw.clone().unwrap_or("null".into());
+    let truekw = s.truekw.clone().unwrap_or("true".into());
+    let falsekw = s.falsekw.clone().unwrap_or("false".into());
+    let miss = s.misskw.clone().unwrap_or_default();
+    if isep.is_empty() || rowsep.is_empty() {
+        return None;
+    }
+    let esc = |t: &str| -> String {
+        let mut out = String::new();
+        for ch in t.chars() {
+            // the last definition of a character wins
+            match s.esc.iter().rev().find(|e| e.chars().next() == Some(ch)) {
+                Some(e) => out.push_str(&e[ch.len_utf8()..]),
+                None => out.push(ch),
+            }
+        }
+        out
+    };
+    // a representative text of the field: its first and last characters and every character it can contain
+    let hull = |v: &Option<V>| -> String {
+        match v {
+            None => miss.clone(),
+            Some(V::Null) => nullkw.clone(),
+            Some(V::Bool(b)) => if *b { truekw.clone() } else { falsekw.clone() },
+            Some(V::Str(x)) => format!("{pre}{}{post}", esc(x)),
+            Some(V::Int(i)) => i.to_string(),
+            Some(V::Float(_)) => "-0123456789.eE+".into(),
+            Some(v) => format!("{pre}{}{post}", esc(&value::render(v))),
+        }
+    };
+    let headers = s.headers;
+    let names: Vec<String> = c.spec.selects.iter().filter_map(|x| parse_selection(x).map(|(_, nm)| nm)).collect();
+    let mut all: Vec<Vec<String>> = vec![];
+    if headers {
+        all.push(names.iter().map(|nm| format!("{pre}{}{post}", esc(nm))).collect());
+    }
+    for r in rows {
+        all.push(r.iter().map(|v| hull(v)).collect());
+    }
+    let total_rows = all.len();
+    // can `sep` occur inside one of the tokens, or be completed across a token boundary?
+    let clash = |tokens: &[String], sep: &str| -> bool {
+        let numeric = sep.chars().all(|ch| "-0123456789.eE+".contains(ch));
+        tokens.iter().any(|t| t.contains(sep) || (numeric && t == "-0123456789.eE+"))
+            || (1..sep.len()).filter(|k| sep.is_char_boundary(*k)).any(|k| tokens.iter().any(|t| t.ends_with(&sep[..k]) || t.starts_with(&sep[k..])))
+    };
+    let mut tokens: Vec<String> = all.iter().flatten().cloned().collect();
+    tokens.push(isep.clone());
+    let rows_splittable = !clash(&tokens, rowsep);
+    if !rows_splittable {
+        let k = text.matches(rowsep).count();
+        if k < total_rows {
+            return Some(format!("{}: {} rows expected, only {k} row separators written", c.id, total_rows));
+        }
+        let seps = text.matches(&isep).count();
+        if seps < total_rows * (n - 1) {
+            return Some(format!("{}: {total_rows} rows of {n} fields need {} item separators, {seps} written", c.id, total_rows * (n - 1)));
+        }
+        return None;
+    }
+    if !text.is_empty() && !text.ends_with(rowsep) {
+        return Some(format!("{}: the last text row is not terminated by the row separator", c.id));
+    }
+    let mut lines: Vec<&str> = text.split(rowsep).collect();
+    lines.pop();
+    if lines.len() != total_rows {
+        return Some(format!("{}: {total_rows} text rows expected, {} written", c.id, lines.len()));
+    }
+    for (li, line) in lines.iter().enumerate() {
+        let fields_hull = &all[li];
+        let sep_inside = clash(fields_hull, &isep);
+        if sep_inside {
+            if line.matches(&isep).count() < n - 1 {
+                return Some(format!("{}: text row {li} has fewer than {} item separators: {:?}", c.id, n - 1, line));
+            }
+            continue;
+        }
+        let fields: Vec<&str> = line.split(&isep).collect();
+        if fields.len() != n {
+            return Some(format!("{}: text row {li} has {} fields for {n} selections: {:?}", c.id, fields.len(), line));
+        }
+        if headers && li == 0 {
+            continue;
+        }
+        let want = &rows[li - headers as usize];
+        for (fi, (got, w)) in fields.iter().zip(want).enumerate() {
+            let ok = match w {
+                None => *got == miss,
+                Some(V::Null) => *got == nullkw,
+                Some(V::Bool(b)) => *got == if *b { &truekw } else { &falsekw },
+                Some(V::Int(i)) => *got == i.to_string(),
+                Some(V::Str(_)) | Some(V::Arr(_)) | Some(V::Obj(_)) => got.len() >= pre.len() + post.len() && got.starts_with(&pre) && got.ends_with(&post),
+                Some(V::Float(f)) => got.parse::<f64>().map(|x| x == *f).unwrap_or(false),
+            };
+            if !ok {
+                return Some(format!("{}: text row {li} field {fi} is {:?}, the selected value is {}", c.id, got, w.as_ref().map(show).unwrap_or("absent".into())));
+            }
+        }
+    }
+    None
+}
+// =================================================================================== C19
+
+/// all numbers of a value, in document order; Err = a number that is not an integer in [-2^63, 2^64)
+fn int_leaves(v: &V, out: &mut Vec<i128>) -> Result<(), f64> {
+    match v {
+        V::Int(i) => out.push(*i),
+        V::Float(f) => return Err(*f),
+        V::Arr(a) => {
+            for x in a {
+                int_leaves(x, out)?;
+            }
+        }
+        V::Obj(o) => {
+            for (_, x) in o {
+                int_leaves(x, out)?;
+            }
+        }
+        _ => {}
+    }
+    Ok(())
+}
+
+fn c19(g: &Group, obs: &[Obs]) -> Option<String> {
+    let (c, o) = (&g.cases[0], &obs[0]);
+    if o.res != "ok" {
+        return Some(format!("{}: the run ended with {}", c.id, o.res));
+    }
+    let records = parse_stream(stdin_bytes(c))?;
+    if plain_select_run(c) {
+        // every selection the reference evaluator settles: pass-through positions, collection functions,
+        // and the number-as-string functions against exact big-integer arithmetic
+        if let Err(e) = check_selects(c, o) {
+            return Some(e);
+        }
+        // (sort l) / (sort_unique l): whatever the order, the integers are those of l
+        let rows = crate::props::parse_rows(&o.out, "\n").ok()?;
+        for sel in &c.spec.selects {
+            let Some((Ast::Call { name, args }, title)) = parse_selection(sel) else { continue };
+            if name != "sort" && name != "sort_unique" {
+                continue;
+            }
+            for (rec, row) in records.iter().zip(&rows) {
+                let Rv::Val(V::Arr(l)) = Eval::new().eval(&args[0], rec, &[]) else { continue };
+                let mut want = vec![];
+                if int_leaves(&V::Arr(l), &mut want).is_err() {
+                    continue;
+                }
+                let mut got = vec![];
+                match crate::props::get_key(row, &title) {
+                    Some(v) => {
+                        if let Err(f) = int_leaves(v, &mut got) {
+                            return Some(format!("{}: `{sel}` printed the integer list of {} with the non-integer {f}", c.id, show(rec)));
+                        }
+                    }
+                    None => return Some(format!("{}: `{sel}` on {} gave nothing", c.id, show(rec))),
+                }
+                want.sort();
+                got.sort();
+                if name == "sort_unique" {
+                    want.dedup();
+                    got.dedup();
+                }
+                if want != got {
+                    return Some(format!("{}: `{sel}` on {} changed the integers: {:?} became {:?}", c.id, show(rec), want, got));
+                }
+            }
+        }
+        return None;
+    }
+    // pipelines that move whole values around: the integers of the output are the integers of the input
+    let s = &c.spec;
+    if s.filter.is_some() || s.skip != 0 || s.take.is_some() || !s.selects.is_empty() || s.style.is_some() || s.ooa {
+        return None;
+    }
+    let mut want: Vec<i128> = vec![];
+    match &s.split {
+        None => {
+            for rec in &records {
+                int_leaves(rec, &mut want).ok()?;
+            }
+        }
+        Some(e) => {
+            let a = parse_expr(e)?;
+            for rec in &records {
+                match Eval::new().eval(&a, rec, &[]) {
+                    Rv::Val(V::Arr(l)) => int_leaves(&V::Arr(l), &mut want).ok()?,
+                    Rv::Unknown | Rv::Dec(_) => return None,
+                    _ => {}
+                }
+            }
+        }
+    }
+    let sep = s.rowsep.clone().unwrap_or("\n".into());
+    let rows = match crate::props::parse_rows(&o.out, &sep) {
+        Ok(r) => r,
+        Err(e) => return Some(format!("{}: {e}", c.id)),
+    };
+    let mut got: Vec<i128> = vec![];
+    for row in &rows {
+        if let Err(f) = int_leaves(row, &mut got) {
+            return Some(format!("{}: the input holds integers only, the output holds the non-integer number {f}", c.id));
+        }
+    }
+    if s.unique {
+        // whole rows are dropped only when equal: the set of integers is unchanged
+        want.sort();
+        want.dedup();
+        got.sort();
+        got.dedup();
+    } else {
+        want.sort();
+        got.sort();
+    }
+    if want != got {
+        let lost: Vec<&i128> = want.iter().filter(|x| !got.contains(x)).take(3).collect();
+        let new: Vec<&i128> = got.iter().filter(|x| !want.contains(x)).take(3).collect();
+        return Some(format!("{}: integers changed on the way through the pipeline: {} in, {} out; missing {:?}, unexpected {:?}", c.id, want.len(), got.len(), lost, new));
+    }
+    None
+}
+
+/// another spelling of the same decimal: leading zeros, trailing zeros, a moved point, an exponent
+pub fn respell_decimal(r: &mut Rng, s: &str) -> String {
+    let Some(d) = Dec::parse(s) else { return s.to_string() };
+    let zero = BigInt::from(0u32);
+    let neg = d.m < zero;
+    let mut digits = if neg { (-d.m.clone()).to_string() } else { d.m.to_string() };
+    let mut e = d.e;
+    let k = r.below(4);
+    digits.push_str(&"0".repeat(k));
+    e -= k as i64;
+    let p = r.below(digits.len() + 1).min(40);
+    let (ip, fp) = digits.split_at(digits.len() - p);
+    e += p as i64;
+    let mut out = String::new();
+    if neg {
+        out.push('-');
+    } else if r.chance(15) {
+        out.push('+');
+    }
+    out.push_str(&"0".repeat(r.below(3)));
+    out.push_str(if ip.is_empty() { "0" } else { ip });
+    if !fp.is_empty() || r.chance(10) {
+        out.push('.');
+        out.push_str(fp);
+    }
+    if e != 0 || r.chance(20) {
+        out.push(if r.chance(50) { 'e' } else { 'E' });
+        if e >= 0 && r.chance(40) {
+            out.push('+');
+        }
+        out.push_str(&e.to_string());
+    }
+    out
+}
+// =================================================================================== C20
+
+pub struct Spawned {
+    pub code: Option<i32>,
+    pub out: Vec<u8>,
+    pub err: Vec<u8>,
+    pub timed_out: bool,
+}
+
+#[derive(Clone, Copy, PartialEq, Debug)]
+pub enum StdoutKind {
+    Pipe,
+    /// /dev/full: every write fails with ENOSPC
+    Full,
+    /// a pipe whose reader has gone: every write fails with EPIPE
+    Closed,
+}
+
+/// run the real executable (env JAWK_BIN) as a child process with an address-space limit and a 20 s timeout
+pub fn spawn_jawk(args: &[String], stdin: &[u8], stdout: StdoutKind) -> Result<Spawned, String> {
+    use std::io::{Read, Write};
+    use std::process::{Command, Stdio};
+    let exe = std::env::var("JAWK_BIN").unwrap_or_else(|_| "/verif/build/repo-target/release/jawk".into());
+    if !std::path::Path::new(&exe).exists() {
+        return Err(format!("the jawk executable {exe} does not exist (set JAWK_BIN)"));
+    }
+    let mut cmd = Command::new("bash");
+    cmd.arg("-c").arg("ulimit -v 4000000; exec \"$0\" \"$@\"").arg(&exe).args(args);
+    cmd.stdin(Stdio::piped()).stderr(Stdio::piped());
+    match stdout {
+        StdoutKind::Full => {
+            let f = std::fs::OpenOptions::new().write(true).open("/dev/full").map_err(|e| format!("/dev/full: {e}"))?;
+            cmd.stdout(Stdio::from(f));
+        }
+        _ => {
+            cmd.stdout(Stdio::piped());
+        }
+    }
+    let mut child = cmd.spawn().map_err(|e| format!("cannot spawn {exe}: {e}"))?;
+    let mut out_pipe = child.stdout.take();
+    if stdout == StdoutKind::Closed {
+        // the reader goes away before the child has been given anything to answer
+        out_pipe = None;
+    }
+    let mut err_pipe = child.stderr.take();
+    let mut in_pipe = child.stdin.take();
+    let data = stdin.to_vec();
+    let feeder = std::thread::spawn(move || {
+        if let Some(mut p) = in_pipe.take() {
+            let _ = p.write_all(&data);
+        }
+    });
+    let out_t = std::thread::spawn(move || {
+        let mut b = vec![];
+        if let Some(mut p) = out_pipe.take() {
+            let _ = p.read_to_end(&mut b);
+        }
+        b
+    });
+    let err_t = std::thread::spawn(move || {
+        let mut b = vec![];
+        if let Some(mut p) = err_pipe.take() {
+            let _ = p.read_to_end(&mut b);
+        }
+        b
+    });
+    let t0 = std::time::Instant::now();
+    let mut timed_out = false;
+    let status = loop {
+        match child.try_wait() {
+            Ok(Some(s)) => break Some(s),
+            Ok(None) => {
+                if t0.elapsed().as_secs() >= 20 {
+                    let _ = child.kill();
+                    timed_out = true;
+                    break child.wait().ok();
+                }
+                std::thread::sleep(std::time::Duration::from_millis(2));
+            }
+            Err(_) => break None,
+        }
+    };
+    let _ = feeder.join();
+    let out = out_t.join().unwrap_or_default();
+    let err = err_t.join().unwrap_or_default();
+    Ok(Spawned { code: status.and_then(|s| s.code()), out, err, timed_out })
+}
+
+fn has_error_line(b: &[u8]) -> bool {
+    b.split(|c| *c == b'\n').any(|l| l.starts_with(b"error:"))
+}
+
+fn c20(g: &Group, obs: &[Obs]) -> Option<String> {
+    for (c, lib) in g.cases.iter().zip(obs) {
+        if c.mode != "main" {
+            continue;
+        }
+        if c.sources.iter().any(|s| s.name.is_some()) || c.rerr.is_some() || c.endless.is_some() {
+            continue;
+        }
+        let argv = c.argv("/nonexistent");
+        let kind = match c.wfail {
+            None => StdoutKind::Pipe,
+            Some(0) => StdoutKind::Full,
+            Some(_) => StdoutKind::Closed,
+        };
+        let input = stdin_bytes(c);
+        let run = match spawn_jawk(&argv[1..], input, kind) {
+            Ok(r) => r,
+            Err(e) => return Some(format!("{}: C20 needs the executable: {e}", c.id)),
+        };
+        if run.timed_out {
+            return Some(format!("{}: the executable did not finish within 20 s", c.id));
+        }
+        let Some(code) = run.code else { return Some(format!("{}: the executable was killed by a signal; stderr: {}", c.id, String::from_utf8_lossy(&run.err).chars().take(200).collect::<String>())) };
+        // ---- what the case is, from the case alone
+        let policy = c.spec.on_error.clone().unwrap_or("ignore".into());
+        let noisy = parse_stream(input).is_none();
+        let bad_config = c.spec.selects.iter().any(|s| s.contains("(nope")) || c.spec.sorts.iter().any(|s| s.contains("sideways"));
+        // the library entry point on the same case (in-memory streams): did it succeed, did it try to write?
+        let lib_ok = lib.res == "ok";
+        let lib_rejected = lib.res == "err:config" || lib.res == "err:clap";
+        let wrote_something = !lib.out.is_empty() || lib.res == "err:io";
+        let what = format!("{} (policy {policy}, {}, {}, stdout {:?})", c.id, if noisy { "noisy input" } else { "clean input" }, if bad_config { "invalid configuration" } else { "valid configuration" }, kind);
+        let err_text = String::from_utf8_lossy(&run.err).chars().take(200).collect::<String>();
+        // ---- exit status
+        let must_fail = bad_config || (policy == "panic" && noisy) || (kind != StdoutKind::Pipe && wrote_something && !lib_rejected);
+        let must_succeed = !bad_config && !noisy && kind == StdoutKind::Pipe;
+        if must_fail && code == 0 {
+            return Some(format!("{what}: the run failed but the exit status is 0 (stderr: {err_text:?})"));
+        }
+        if must_succeed && code != 0 {
+            return Some(format!("{what}: exit status {code} for a run that has nothing to fail on (stderr: {err_text:?})"));
+        }
+        if kind == StdoutKind::Pipe && (code == 0) != lib_ok {
+            return Some(format!("{what}: exit status {code} but the same run through the library entry point ended with {}", lib.res));
+        }
+        if code != 0 && run.err.iter().all(|b| b.is_ascii_whitespace()) {
+            return Some(format!("{what}: exit status {code} without a message on standard error"));
+        }
+        // ---- data on stdout, diagnostics where the policy says
+        if bad_config && !run.out.is_empty() {
+            return Some(format!("{what}: output written although the configuration was rejected"));
+        }
+        if kind == StdoutKind::Pipe {
+            if policy == "stderr" {
+                if has_error_line(&run.out) {
+                    return Some(format!("{what}: an `error:` line on standard output under --on-error=stderr"));
+                }
+                if noisy && !bad_config && !has_error_line(&run.err) {
+                    return Some(format!("{what}: noisy input but no `error:` line on standard error (stderr: {err_text:?})"));
+                }
+            }
+            if c.wfail.is_none() && c.efail.is_none() && (lib_ok || lib.res == "err:json") && run.out != lib.out {
+                return Some(format!("{what}: standard output differs from what the library entry point writes to its output stream: {:?} vs {:?}",
+                                    crate::runner::show_bytes(&run.out), crate::runner::show_bytes(&lib.out)));
+            }
+            if code == 0 {
+                // rows never go to standard error: on success it holds diagnostics only
+                let stray = run.err.split(|b| *b == b'\n').find(|l| !l.is_empty() && !(policy == "stderr" && l.starts_with(b"error:")));
+                if let Some(l) = stray {
+                    return Some(format!("{what}: unexpected text on standard error of a successful run: {:?}", String::from_utf8_lossy(l).chars().take(120).collect::<String>()));
+                }
+            }
+        }
+    }
     None
 }
